@@ -151,6 +151,8 @@ def run(c):
             c.obligation("harness-consistency:c12", False, "the parser found %d comments, %d were generated" % (
                 finfo["parser_comments"], finfo["built_comments"]))
         srcs = [b64(x) for x in finfo["srcs"]]
+        path_of = finfo.get("path_of") or []
+        in_memory = finfo.get("in_memory", -1)
         pending = []
         irules = next((o["irules"] for o in obs if o["k"] == "irules"), None)
         loaded = next((o["loaded"] for o in obs if o["k"] == "loaded"), None)
@@ -227,6 +229,13 @@ def run(c):
         for i, o in enumerate(comments):
             c.count()
             inp = {"comment": repr(b64(o.get("src"))), "file": o.get("file"), "offset": o.get("off"), "TruncateLen": o["L"]}
+            # the history of the runner state this run belongs to (only told when it is not the plain case: first run / a file of its own on disk)
+            fi_, pv = o.get("file"), o.get("prev", -1)
+            if fi_ is not None and path_of and (fi_ == in_memory or path_of[fi_] != fi_ or (pv is not None and pv >= 0 and path_of[pv] == path_of[fi_])):
+                inp["history"] = {"run_of_the_state": o.get("step"), "file_on_disk": fi_ != in_memory,
+                                  "version_of_the_path_of_file": path_of[fi_],
+                                  "run_just_before": None if pv is None or pv < 0 else {
+                                      "file": pv, "same_path": path_of[pv] == path_of[fi_], "same_byte_length": len(srcs[pv]) == len(srcs[fi_])}}
             if o.get("panic"):
                 c.fail("oracle", "run over the comment file failed", input=inp, observed=o["panic"], expected="reports")
                 continue
@@ -301,6 +310,52 @@ def run(c):
             c.obligation("generator:%s reaches the alternative classes" % tag, non_first >= 8 and beats_leftmost >= 4 and after_rejected_alt >= 4,
                          "later-written alternative reports: %d, written order beats leftmost: %d, after a rejected earlier alternative: %d" % (
                              non_first, beats_leftmost, after_rejected_alt))
+        # the classes the whole-text / whole-span / current-bytes clauses are about must be reached (measured)
+        cut_l = sum(1 for o in comments if o["L"] == 0 and o.get("cut_l"))
+        cut_r = sum(1 for o in comments if o["L"] == 0 and o.get("cut_r"))
+        cut_l_noreport = sum(1 for o in comments if o["L"] == 0 and o.get("cut_l") and not o.get("want"))
+        loose_fast = loose_grouped = 0
+        for o in comments:
+            w = o.get("want")
+            if w and not o.get("has_cr") and rules[w["rule"]].get("anyends"):
+                if rules[w["rule"]]["numsub"] == 0:
+                    loose_fast += 1
+                else:
+                    loose_grouped += 1
+
+        def want_key(o):
+            w = o.get("want")
+            return None if not w else (w["group"], w["line"], w["pos"], w["end"], w["msg"], w.get("sugg"))
+        by_version = {}
+        for o in comments:
+            if not o.get("panic"):
+                by_version[(o["file"], o["off"], o["L"])] = o
+        same_len_pairs = [(a, b) for a in range(len(srcs)) for b in range(len(srcs)) if a != b and path_of and path_of[a] == path_of[b]
+                          and len(srcs[a]) == len(srcs[b]) and srcs[a] != srcs[b]]
+        adjacent = set()
+        for L_, order in (finfo.get("orders") or {}).items():
+            for x, y in zip(order, order[1:]):
+                adjacent.add((x, y))
+        same_len_diff = same_len_adjacent = 0
+        for a, b in same_len_pairs:
+            n = sum(1 for (f, off, L_), o in by_version.items() if f == b and (a, off, L_) in by_version and want_key(by_version[(a, off, L_)]) != want_key(o))
+            same_len_diff += n
+            if (a, b) in adjacent:
+                same_len_adjacent += n
+        in_mem_reports = sum(1 for o in comments if o.get("file") == in_memory and o.get("want"))
+        for key, v in (("comments_where_a_later_start_would_satisfy_an_assertion", cut_l), ("comments_where_an_earlier_end_would_satisfy_an_assertion", cut_r),
+                       ("reports_of_groupless_regexps_with_a_loose_end", loose_fast), ("reports_of_regexps_with_groups_and_a_loose_end", loose_grouped),
+                       ("comments_whose_expected_report_differs_between_same_length_versions_of_a_path", same_len_diff),
+                       ("reports_expected_in_a_file_that_is_not_on_disk", in_mem_reports)):
+            c.coverage[key] = c.coverage.get(key, 0) + v
+        if not any(o.get("panic") for o in comments):
+            c.obligation("generator:%s reaches the assertion classes" % tag, cut_l >= 40 and cut_r >= 10 and cut_l_noreport >= 10,
+                         "a later start would match: %d comments (%d of them must not be reported at all), an earlier end would match: %d" % (cut_l, cut_l_noreport, cut_r))
+            c.obligation("generator:%s reaches the whole-span classes" % tag, loose_fast >= 40 and loose_grouped >= 8,
+                         "reports of regexps that begin / end with a repetition of anything: %d without groups, %d with groups" % (loose_fast, loose_grouped))
+            c.obligation("generator:%s reaches the rewritten-file classes" % tag, same_len_diff >= 16 and same_len_adjacent >= 8 and in_mem_reports >= 8,
+                         "expected report differs between two same-length versions of one path: %d comments (%d of them in runs that follow each other "
+                         "directly), reports in the file that is not on disk: %d" % (same_len_diff, same_len_adjacent, in_mem_reports))
         c.coverage["oracle_vs_impl_cases"] = c.coverage.get("oracle_vs_impl_cases", 0) + len(comments)
         c.coverage["comments_with_CR"] = c.coverage.get("comments_with_CR", 0) + sum(1 for o in comments if o.get("has_cr"))
         c.coverage["comment_rules"] = len(rules)
